@@ -53,6 +53,10 @@ GROUP: Dict[str, str] = {
     **{t: "Proofs/SrcTieUpdP.v" for t in ("OptionsValidator_validate_no_group_context_conflicts",
                                           "OptionsValidator_validate_no_context_group_conflicts",
                                           "Options_update_with_protected_keys")},
+    # round 3
+    "TransformFrameworkStep_eq": "Proofs/SrcTieTfsP.v", "TransformFrameworkStep_hash": "Proofs/SrcTieTfsP.v",
+    "ExecutionPlan_add_single_filters_to_feature_set": "Proofs/SrcTieFilterP.v",
+    "CfwManager_set_error": "Proofs/SrcTieWorkerP.v", "Worker_thread_worker": "Proofs/SrcTieWorkerP.v",
 }
 # lemma -> target, to name the first lemma coqc stopped at
 LEMMA_TARGET = {
@@ -107,6 +111,14 @@ LEMMA_TARGET = {
     **{l: "Options_update_with_protected_keys" for l in (
         "kmem_union_single", "update_loop1_src", "dict_del_filter", "update_loop2_src", "py_dict_update_dupdate",
         "update_loop3_src", "update_with_protected_keys_src", "merge_options_full")},
+    # round 3
+    **{l: "TransformFrameworkStep_eq" for l in ("tfs_eq_src", "tfs_eq_other_src", "tfs_eq_components", "tfs_collection_mem_src")},
+    "tfs_hash_src": "TransformFrameworkStep_hash", "tfs_eq_iff_hash": "TransformFrameworkStep_hash",
+    **{l: "ExecutionPlan_add_single_filters_to_feature_set" for l in (
+        "filter_loop2_src", "filter_loop1_src", "add_single_filters_to_feature_set_src", "add_single_filters_to_feature_set_model")},
+    "set_error_src": "CfwManager_set_error",
+    **{l: "Worker_thread_worker" for l in ("thread_worker_src", "thread_worker_registers", "thread_worker_nonexception",
+                                           "thread_worker_worker_done", "thread_worker_labels")},
 }
 
 TRUSTED = [
@@ -120,7 +132,7 @@ TRUSTED = [
 
 
 def targets_of(prop: str) -> List[str]:
-    return [t.name for t in py2coq.TARGETS if t.check == prop]
+    return [t.name for t in py2coq.TARGETS if prop in t.checks()]
 
 
 def _first_broken_lemma(log: str) -> Dict[str, str]:
@@ -163,7 +175,7 @@ def check(rep: vlib.Reporter, prop: Optional[str] = None) -> bool:
     if not pr.ok:
         broken = _first_broken_lemma(pr.log)
         gen_broken = {g for g in py2coq.gen_files() if f"Gen/{g}.v" in pr.failed_files}
-        sem_broken = "Model/PySem.v" in pr.failed_files or "Model/PyObj.v" in pr.failed_files
+        sem_broken = any(f in pr.failed_files for f in ("Model/PySem.v", "Model/PyObj.v", "Model/PyObjR3.v"))
         other = [f for f in pr.failed_files if not f.startswith(("Proofs/SrcTie", "Props/SrcTie", "Gen/Src"))]
         affected = []
         for t in mine:
@@ -192,7 +204,7 @@ def check(rep: vlib.Reporter, prop: Optional[str] = None) -> bool:
             except Exception as ex:  # noqa: BLE001
                 why += f"; the search for a failing input itself failed: {type(ex).__name__}: {str(ex)[:200]}"
             tgt = py2coq.TARGET_BY_NAME[t]
-            what = f"source tie {tgt.file} {tgt.cls}.{tgt.fn} <-> {tgt.model}: {kind}: {why}"
+            what = f"source tie {tgt.file} {tgt.cls + '.' if tgt.cls else ''}{tgt.fn} <-> {tgt.model}: {kind}: {why}"
             if wit is not None:
                 rep.finding(f"srctie:{t}:{json.dumps(wit['input'], sort_keys=True)}",
                             what + f"; the real function and the model differ on {wit['input']}: real {wit['real']!r}",
@@ -394,10 +406,137 @@ def _space(target: str) -> Dict[str, Any]:
                         f"Definition chk (c : {ty}) := match c with ((it, cols, o), obs) => match identify it cols o, obs with "
                         "| RErr, None => true | RSet l, Some (true, l') => seteq l l' && Nat.eqb (List.length l) (List.length l') "
                         "| RList l, Some (false, l') => if list_eq_dec string_dec l l' then true else false | _, _ => false end end."}
+    if py2coq.TARGET_BY_NAME[target].gen in ("SrcTfs", "SrcFilter", "SrcWorker"):
+        return _space_r3(target)
     if py2coq.TARGET_BY_NAME[target].gen == "SrcPlan":
         return _space_plan(target)
     if py2coq.TARGET_BY_NAME[target].gen == "SrcOpt":
         return _space_opt(target)
+    raise KeyError(target)
+
+
+# ---------------------------------------------------------------------------------------------------------------------
+# round 3: the identity of transform steps, the filters attached to a feature set, the THREADING worker.  The real functions
+# run on real objects where their constructors allow it and on stub objects that hold exactly the attributes the function
+# touches otherwise (the step / the register of the worker, the ExecutionPlan around add_single_filters_to_feature_set)
+# ---------------------------------------------------------------------------------------------------------------------
+_FGS: List[type] = []
+
+
+def _fgs() -> List[type]:
+    if not _FGS:
+        _FGS.extend(type(f"SrcTieGroup{i}", (), {}) for i in range(3))
+    return _FGS
+
+
+def _space_r3(target: str) -> Dict[str, Any]:
+    import types
+    if target in ("TransformFrameworkStep_eq", "TransformFrameworkStep_hash"):
+        from mloda.core.core.step.transform_frame_work_step import TransformFrameworkStep as TFS
+        keys = [{"from_fw": a, "to_fw": b, "from_fg": c, "to_fg": d} for a in range(2) for b in range(2) for c in range(2) for d in range(2)]
+
+        def mk(k: Dict[str, int]) -> Any:
+            o = TFS.__new__(TFS)        # __eq__ / __hash__ read these four attributes only
+            o.from_framework, o.to_framework = _cfws()[k["from_fw"]], _cfws()[k["to_fw"]]
+            o.from_feature_group, o.to_feature_group = _fgs()[k["from_fg"]], _fgs()[k["to_fg"]]
+            return o
+        cq_key = lambda k: f"({cq_nat(k['from_fw'])}, {cq_nat(k['to_fw'])}, {cq_nat(k['from_fg'])}, {cq_nat(k['to_fg'])})"  # noqa: E731
+        ty = "(PlannerB.tkey * option PlannerB.tkey) * option bool"
+        if target == "TransformFrameworkStep_eq":
+            inputs = [{"self": a, "other": b} for a in keys for b in keys] + [{"self": a, "other": None} for a in keys]
+            real = lambda i: mk(i["self"]).__eq__(mk(i["other"]) if i["other"] is not None else "not a step")  # noqa: E731
+        else:       # the hash is observed through the only thing a set / dict does with it: are two hashes equal
+            inputs = [{"self": a, "other": b} for a in keys for b in keys]
+            real = lambda i: hash(mk(i["self"])) == hash(mk(i["other"]))  # noqa: E731
+        return {"inputs": inputs, "real": real,
+                "term": lambda i, o: (f"(({cq_key(i['self'])}, {'Some ' + cq_key(i['other']) if i['other'] is not None else 'None'}), "
+                                      f"{_ob(o)})"),
+                "type": ty, "req": ["MV.Model.PlannerB"],
+                "defs": OB + f"Definition chk (c : {ty}) := match snd (fst c) with Some b => ob (snd c) (PlannerB.tkey_eqb (fst (fst c)) b) "
+                             "| None => ob (snd c) false end."}
+    if target == "ExecutionPlan_add_single_filters_to_feature_set":
+        from mloda.core.prepare.execution_plan import ExecutionPlan
+        from mloda.core.abstract_plugins.components.feature_set import FeatureSet
+        from mloda.core.abstract_plugins.components.feature import Feature
+        from mloda.core.abstract_plugins.components.feature_name import FeatureName
+        feats = [["a", True], ["a", False], ["b", True], ["b", False]]
+        fsets = [[f] for f in feats] + [[f, g] for f in feats for g in feats if f[0] < g[0]]
+        ents = [[g, n, fl] for g in range(2) for n in ("a", "b") for fl in ([1], [2], [1, 2])]
+        colls: List[Any] = [None, []] + [[e] for e in ents] + \
+            [[e, f] for e in ents for f in ents if (e[0], e[1]) < (f[0], f[1]) and e[0] == 0]
+
+        def real_attach(i: dict) -> Any:
+            ep = ExecutionPlan.__new__(ExecutionPlan)      # the method reads self.global_filter only
+            ep.global_filter = None if i["collection"] is None else types.SimpleNamespace(
+                collection={(_fgs()[g], FeatureName(n)): set(fl) for g, n, fl in i["collection"]})
+            fs = FeatureSet()
+            for n, init in i["features"]:
+                fs.add(Feature(n, initial_requested_data=init))
+            ep.add_single_filters_to_feature_set(_fgs()[i["group"]], fs)
+            return None if fs.filters is None else sorted(fs.filters)
+        cq_coll = lambda c: cq_list(f"(({cq_nat(g)}, {cq_str(n)}), {_nl(fl)})" for g, n, fl in c)  # noqa: E731
+        ty = "(option (list ((nat * string) * list nat)) * nat * list string) * option (option (list nat))"
+        return {"inputs": [{"collection": c, "group": 0, "features": f} for c in colls for f in fsets],
+                "real": real_attach,
+                "term": lambda i, o: (f"(({'None' if i['collection'] is None else 'Some ' + cq_coll(i['collection'])}, {cq_nat(i['group'])}, "
+                                      f"{cq_list(cq_str(n) for n, _ in i['features'])}), "
+                                      + ("None" if isinstance(o, str) else "Some None" if o is None else f"Some (Some {_nl(o)})") + ")"),
+                "type": ty, "req": ["MV.Model.FilterAttach"],
+                # observation: None = the call raised, Some None = filters left unset, Some (Some s) = filters set to s
+                "defs": f"Definition chk (c : {ty}) := match c with ((gf, fg, names), obs) => "
+                        "match gf with None | Some [] => match obs with Some None => true | _ => false end "
+                        "| Some cl => match FilterAttach.attach cl fg names, obs with "
+                        "| None, None => true | Some s, Some (Some s') => FilterAttach.set_eqb s s' | _, _ => false end end end."}
+    if target in ("Worker_thread_worker", "CfwManager_set_error"):
+        from mloda.core.core.cfw_manager import CfwManager
+
+        def register(err: bool) -> Any:
+            r = types.SimpleNamespace(error=err, msg=None, exc_info=None)       # the three attributes set_error writes
+            r.set_error = types.MethodType(CfwManager.set_error, r)             # the REAL set_error, on the stub
+            return r
+        if target == "CfwManager_set_error":
+            def real_se(i: dict) -> Any:
+                r = register(i["error"])
+                r.set_error("m", "x")
+                return bool(r.error)
+            return {"inputs": [{"error": False}, {"error": True}], "real": real_se,
+                    "term": lambda i, o: f"({cq_bool(i['error'])}, {_ob(o)})", "type": "bool * option bool", "req": [],
+                    "defs": OB + "Definition chk (c : bool * option bool) := ob (snd c) true."}
+        from mloda.core.runtime.worker.thread_worker import thread_worker
+        outcomes = {"completes": None, "raises ValueError": ValueError, "raises Exception": Exception, "raises KeyboardInterrupt": KeyboardInterrupt}
+
+        def real_tw(i: dict) -> Any:
+            exc = outcomes[i["execute"]]
+
+            class Step:
+                step_is_done = i["step_is_done"]
+
+                def execute(self, cfw_register: Any, cfw: Any, from_cfw: Any = None) -> None:
+                    if exc is not None:
+                        raise exc("boom")
+            cmd, reg = Step(), register(i["error"])
+            try:
+                thread_worker(cmd, reg, object(), object())
+                out = "returns"
+            except BaseException as ex:  # noqa: BLE001
+                out = "raises " + type(ex).__name__
+            return [out, bool(cmd.step_is_done), bool(reg.error)]
+        ty = "(bool * bool * bool * bool) * option (bool * bool * bool)"
+        return {"inputs": [{"execute": e, "step_is_done": d, "error": r} for e in outcomes for d in (False, True) for r in (False, True)],
+                "real": real_tw, "prefer": lambda i: (i["step_is_done"], i["error"]),      # both registers clear at the start
+                "term": lambda i, o: (f"(({cq_bool(i['execute'] != 'completes')}, {cq_bool(i['execute'] == 'raises KeyboardInterrupt')}, "
+                                      f"{cq_bool(i['step_is_done'])}, {cq_bool(i['error'])}), "
+                                      + (f"Some ({cq_bool(o[0] == 'returns')}, {cq_bool(o[1])}, {cq_bool(o[2])})" if isinstance(o, list) else "None") + ")"),
+                "type": ty, "req": ["MV.Model.Orch"],
+                # the model: Orch.worker_done for a step 0 that was started and has not reported (EDone 0 ok); a register that
+                # was already set stays set; an exception that is not an Exception writes no register and propagates
+                "defs": "Definition st0 : Orch.ost := {| Orch.finished := []; Orch.running := [0]; Orch.started := [(0, ([], []))]; "
+                        "Orch.done := []; Orch.failed := []; Orch.results := []; Orch.yielded := []; Orch.scans := 0 |}.\n"
+                        f"Definition chk (c : {ty}) := match c with ((raises, nonexc, d0, e0), Some (ret, d, e)) => "
+                        "let st := Orch.worker_done st0 0 (negb raises) in "
+                        "Bool.eqb ret (negb raises) && (if nonexc then Bool.eqb d d0 && Bool.eqb e e0 else "
+                        "Bool.eqb d (d0 || Orch.mem 0 (Orch.done st)) && Bool.eqb e (e0 || Orch.mem 0 (Orch.failed st))) "
+                        "| _ => false end."}
     raise KeyError(target)
 
 
@@ -783,7 +922,9 @@ def search(target: str, prop: str = "SrcTie") -> Optional[Dict[str, Any]]:
     if not bad:
         return None
     # the smallest differing input, preferring one without an empty component (an empty uuid set / tuple is a corner case)
-    k = min(bad, key=lambda j: (any(v in ([], "") for v in sp["inputs"][j].values()), len(json.dumps(sp["inputs"][j])), j))
+    prefer = sp.get("prefer", lambda i: 0)
+    k = min(bad, key=lambda j: (prefer(sp["inputs"][j]), any(v in ([], "") for v in sp["inputs"][j].values()),
+                                len(json.dumps(sp["inputs"][j])), j))
     return {"input": sp["inputs"][k], "real": obs[k], "differing_inputs": len(bad), "inputs_tried": len(terms)}
 
 
